@@ -2,7 +2,7 @@
 // filter(condition): contract template.  Handler bodies are extracted from /repo/src/filter.rs.
 // ===================================================================================================
 //@op filter
-//@properties C01 C02 C03 C04 C05 C07 C13 C14 C17 C20
+//@properties C01 C02 C03 C04 C05 C06 C07 C13 C14 C17 C20
 //@ignore ctor = Tok_apply {}
 //@ignore apply = let source = source.into(); Tok_filter {}
 //@heap Heap
